@@ -8,22 +8,27 @@ import BufrModel.Drv.State
 import BufrModel.Drv.BitsOp
 import BufrModel.Drv.PathOp
 import BufrModel.Drv.CoderOp
+import BufrModel.Drv.ScriptOp
 open Lean Bufr.Drv
 
 /-- stateless operations: one line per op (keep sorted by property to ease merging) -/
-def statelessOps : List (String × (Json → J Json)) := [
-  ("bits", opBits),
-  ("path", opPath),
-  ("path-enum", opPathEnum)
-]
+def statelessOps : List (String × (Json → J Json)) :=
+  ("bits", opBits) ::
+  ("path", opPath) ::
+  ("path-enum", opPathEnum) ::
+  ("script", opScript) ::
+  ("script-segs", opScriptSegs) ::
+  ("script-enum", opScriptEnum) ::
+  ("flatten", opFlatten) ::
+  []
 
 /-- operations that read or change the driver state -/
-def statefulOps : List (String × (DrvState → Json → J (DrvState × Json))) := [
-  ("tables", opTables),
-  ("dec-data", opDecData),
-  ("enc-data", opEncData),
-  ("gen-data", opGenData)
-]
+def statefulOps : List (String × (DrvState → Json → J (DrvState × Json))) :=
+  ("tables", opTables) ::
+  ("dec-data", opDecData) ::
+  ("enc-data", opEncData) ::
+  ("gen-data", opGenData) ::
+  []
 
 def dispatch (st : DrvState) (j : Json) : J (DrvState × Json) := do
   let op ← asStr (← fld j "op")
